@@ -107,6 +107,11 @@ class Walker:
                 self.emit("transform.py", s, "writeMeta")
             elif isinstance(s, ast.If):
                 self.emit("transform.py", s, "writeMeta")
+                # `fn.__globals__[token] = fn` inside the conditional: the variant's self-reference
+                for n in ast.walk(s):
+                    if isinstance(n, ast.Assign) and isinstance(n.targets[0], ast.Subscript) \
+                            and is_attr(n.targets[0].value, "fn", "__globals__"):
+                        self.emit("transform.py", n, "writeToken")
             else:
                 raise ExtractError("_apply: unrecognised statement at line %d" % s.lineno)
 
